@@ -42,6 +42,11 @@ impl Resolver {
         if let Some(n) = v.get("covhash_of") {
             return Some(tmelcrypt::hash_single(&cov_bytes(n.as_str().unwrap())));
         }
+        if let Some(n) = v.get("faucet_marker_of") {
+            // the transaction-hash part of the dedup pseudo-coin of a faucet transaction (index 0)
+            let h = self.txhashes.get(n.as_str().unwrap()).copied()?;
+            return Some(tmelcrypt::hash_keyed(b"fdp", h.0));
+        }
         panic!("bad hashref {v:?}")
     }
     pub fn denom(&self, v: &J) -> Option<Denom> {
